@@ -153,7 +153,7 @@ def main(args):
     ck.rule = ("design level: TLC model-checks the generator/finally protocol (spec/Iterators, MC_Iter) over ALL well-nested "
                "scripts of <= %d events x all histories of <= %d operations on two iterators of one validator (invariants "
                "ScopeRestored, Balanced, HistoryFree) and confirms that the negative controls NoFinally and AllowReentry "
-               "violate them. binding: for up to %d concrete scenarios per draft (nested id + relative reference, recursion, remote "
+               "violate them. binding: for up to %d concrete scenarios per draft plus every reference-bearing case of the bundled official suite (ref.json, refRemote.json, definitions.json; their tests' instances) (nested id + relative reference, recursion, remote "
                "document through a handler that fails then succeeds, dangling pointer, cross-document reference under "
                "not/disallow before a local reference, anyOf/oneOf/contains/if over references, the same pointer string meaning different things in two documents) the script of every "
                "instance is measured on a fresh validator with a tracing resolver and validated against the model "
@@ -175,12 +175,14 @@ def main(args):
     # ---- scenarios: measure scripts ------------------------------------------------------------------------------
     scens, meta = [], []
     for d in DRAFTS:
-        for sc in scen.scenarios(d):
+        for sc in scen.scenarios(d) + scen.suite_scenarios(d):
             table = {}
             ok = [scen.measure(d, sc, I, False, table) for I in sc["instances"]]
             fail = [scen.measure(d, sc, I, True, table) for I in sc["instances"]] if sc["remote"] else ok
             cls_id = "id" if d <= 4 else "$id"
             base = sc["schema"].get(cls_id, "")
+            if not isinstance(base, str):
+                base = ""
             def resolves(ref, failing):
                 v0, r0, h0 = scen.build(d, sc, handler_fail=failing)
                 try:
